@@ -17,6 +17,9 @@ struct Plan {
     hang_is_violation: bool,
     /// seeds get a zero "arguments" prefix byte (raw layout [n][args][file]) or are the file itself
     prefix_byte: bool,
+    /// Some(n): the fuzz input is the choice sequence of the sub-check's oracle (at most n bytes are read); the seed
+    /// corpus is a set of pseudo-random sequences instead of files
+    choice_len: Option<usize>,
 }
 
 fn secs() -> u64 {
@@ -60,6 +63,40 @@ fn write_seeds(dir: &Path, prefix_byte: bool) -> usize {
     n
 }
 
+fn write_choice_seeds(dir: &Path, max_len: usize, seed: u64) -> usize {
+    let _ = std::fs::create_dir_all(dir);
+    let mut n = 0;
+    for k in 0..48u64 {
+        let len = match k % 6 {
+            0 => 0,
+            1 => 16,
+            2 => max_len / 8,
+            3 => max_len / 3,
+            _ => max_len,
+        };
+        let mut v = vec![0u8; len];
+        verif_model::choice::fill(seed.wrapping_mul(1000).wrapping_add(k) | 1, &mut v);
+        if std::fs::write(dir.join(format!("choice_{}", k)), &v).is_ok() {
+            n += 1;
+        }
+    }
+    n
+}
+
+/// The oracle and choice-sequence length of a registered sub-check.
+pub fn find_sub(prop: &str, sub: &str) -> Option<(OracleFn, usize)> {
+    for p in crate::properties() {
+        if p.id == prop {
+            for s in &p.subs {
+                if s.name == sub {
+                    return Some((s.oracle, s.max_len));
+                }
+            }
+        }
+    }
+    None
+}
+
 fn campaign(p: &Plan, tier: Tier, seed: u64) -> ExtraOutcome {
     let mut out = ExtraOutcome { name: p.name, evaluations: 0, nontrivial: 0, samples: vec![], detail: json!({"skipped": "libFuzzer campaigns run in the thorough tier only"}), failure: None, inconclusive: None };
     if tier != Tier::Thorough {
@@ -72,7 +109,14 @@ fn campaign(p: &Plan, tier: Tier, seed: u64) -> ExtraOutcome {
     let corpus = work.join("corpus");
     let artifacts = work.join("artifacts");
     let _ = std::fs::create_dir_all(&artifacts);
-    let nseeds = write_seeds(&corpus, p.prefix_byte);
+    let nseeds = match p.choice_len {
+        Some(n) => write_choice_seeds(&corpus, n, seed),
+        None => write_seeds(&corpus, p.prefix_byte),
+    };
+    let max_len = match p.choice_len {
+        Some(n) => format!("-max_len={}", (n + n / 4).max(64)),
+        None => "-max_len=70000".to_string(),
+    };
     let t = secs();
     let build = Command::new("cargo").args(["+nightly", "fuzz", "build", "-s", "none", p.target]).current_dir(&fuzz_dir).env("CARGO_NET_OFFLINE", "true").output();
     match build {
@@ -90,7 +134,7 @@ fn campaign(p: &Plan, tier: Tier, seed: u64) -> ExtraOutcome {
     let workers = std::thread::available_parallelism().map(|n| n.get()).unwrap_or(4).min(16).to_string();
     let run = Command::new("cargo")
         .args(["+nightly", "fuzz", "run", "-s", "none", p.target, corpus.to_str().unwrap(), "--"])
-        .args([&format!("-artifact_prefix={}/", artifacts.display()), &format!("-seed={}", fseed), &format!("-max_total_time={}", t), "-max_len=70000", "-len_control=0", "-timeout=60", "-rss_limit_mb=4096", &format!("-fork={}", workers), "-ignore_crashes=1", "-ignore_timeouts=1", "-ignore_ooms=1", "-print_final_stats=1"])
+        .args([&format!("-artifact_prefix={}/", artifacts.display()), &format!("-seed={}", fseed), &format!("-max_total_time={}", t), &max_len, "-len_control=0", "-timeout=60", "-rss_limit_mb=4096", &format!("-fork={}", workers), "-ignore_crashes=1", "-ignore_timeouts=1", "-ignore_ooms=1", "-print_final_stats=1"])
         .current_dir(&fuzz_dir)
         .env("CARGO_NET_OFFLINE", "true")
         .env("VERIF_FUZZ_ORACLE", p.oracle_env)
@@ -129,7 +173,7 @@ fn campaign(p: &Plan, tier: Tier, seed: u64) -> ExtraOutcome {
     out.evaluations = execs;
     out.nontrivial = corp.max(corpus_files as u64);
     out.detail = json!({"engine": "libFuzzer (cargo-fuzz, -fork)", "target": p.target, "oracle": p.oracle_env, "seconds": t, "seed": fseed, "seed_files": nseeds, "executions": execs, "coverage_edges": cov, "features": ft, "corpus_units_at_end": corp, "corpus_files_at_end": corpus_files, "nontrivial_rule": "distinct_nontrivial for this step = corpus units kept by libFuzzer because they reached new coverage"});
-    out.samples = vec![json!({"seed_corpus": "the linker-produced sample objects and 24 generated valid files, each also with a 24-byte argument prefix", "final_stats_line": stderr.lines().rev().find(|l| l.starts_with('#')).unwrap_or("")})];
+    out.samples = vec![json!({"seed_corpus": if p.choice_len.is_some() { "48 pseudo-random choice sequences of lengths 0..max_len (the fuzz input is the oracle's choice sequence: libFuzzer mutates decisions of the generator, coverage feedback comes from the crate and from the generator)" } else { "the linker-produced sample objects and 24 generated valid files, each also with a 24-byte argument prefix" }, "final_stats_line": stderr.lines().rev().find(|l| l.starts_with('#')).unwrap_or("")})];
     if execs == 0 {
         out.inconclusive = Some(format!("libFuzzer reported no executions: {}", stderr.lines().rev().take(4).collect::<Vec<_>>().join(" | ")));
     }
@@ -184,7 +228,7 @@ fn campaign(p: &Plan, tier: Tier, seed: u64) -> ExtraOutcome {
 macro_rules! camp {
     ($fname:ident, $prop:expr, $target:expr, $env:expr, $oracle:expr, $sub:expr, $hang:expr, $prefix:expr) => {
         pub fn $fname(tier: Tier, seed: u64) -> ExtraOutcome {
-            campaign(&Plan { prop: $prop, name: "libfuzzer", target: $target, oracle_env: $env, oracle: $oracle, subcheck: $sub, hang_is_violation: $hang, prefix_byte: $prefix }, tier, seed)
+            campaign(&Plan { prop: $prop, name: "libfuzzer", target: $target, oracle_env: $env, oracle: $oracle, subcheck: $sub, hang_is_violation: $hang, prefix_byte: $prefix, choice_len: None }, tier, seed)
         }
     };
 }
@@ -194,3 +238,29 @@ camp!(c16_campaign, "C16", "total", "c16", crate::c16::oracle_walk_raw, "walk_ra
 camp!(c07_campaign, "C07", "stream_diff", "c07", crate::c07::oracle_raw, "stream_diff_raw", false, true);
 camp!(c08_campaign, "C08", "stream_diff", "c08", crate::c08::oracle_raw, "bounded_raw", false, true);
 camp!(c18_campaign, "C18", "prefix", "c18", crate::c18::oracle_raw, "generated_raw", false, false);
+
+/// Coverage-guided search over the *choice sequences* of a proptest sub-check (target `choice`).
+macro_rules! chc {
+    ($fname:ident, $prop:expr, $sub:expr, $label:expr) => {
+        pub fn $fname(tier: Tier, seed: u64) -> ExtraOutcome {
+            let (oracle, n) = find_sub($prop, $sub).expect("registered sub-check");
+            campaign(&Plan { prop: $prop, name: $label, target: "choice", oracle_env: concat!($prop, ".", $sub), oracle, subcheck: $sub, hang_is_violation: false, prefix_byte: false, choice_len: Some(n) }, tier, seed)
+        }
+    };
+}
+chc!(c02_choice, "C02", "struct", "libfuzzer_choice_struct");
+chc!(c03_choice, "C03", "ranges", "libfuzzer_choice_ranges");
+chc!(c04_choice, "C04", "random", "libfuzzer_choice_random");
+chc!(c05_choice, "C05", "tables", "libfuzzer_choice_tables");
+chc!(c09_choice, "C09", "tables", "libfuzzer_choice_tables");
+chc!(c10_choice, "C10", "equiv", "libfuzzer_choice_equiv");
+chc!(c11_choice_well, "C11", "wellformed", "libfuzzer_choice_wellformed");
+chc!(c11_choice_sound, "C11", "sound", "libfuzzer_choice_sound");
+chc!(c12_choice_well, "C12", "wellformed", "libfuzzer_choice_wellformed");
+chc!(c12_choice_sound, "C12", "sound", "libfuzzer_choice_sound");
+chc!(c13_choice, "C13", "versions", "libfuzzer_choice_versions");
+chc!(c14_choice, "C14", "notes", "libfuzzer_choice_notes");
+chc!(c15_choice, "C15", "random", "libfuzzer_choice_random");
+chc!(c17_choice, "C17", "faults", "libfuzzer_choice_faults");
+chc!(c20_choice_paths, "C20", "paths", "libfuzzer_choice_paths");
+chc!(c20_choice_damaged, "C20", "damaged", "libfuzzer_choice_damaged");
